@@ -346,6 +346,36 @@ func TestVerifC01(t *testing.T) {
 			break
 		}
 	}
+	// Thorough: every single name and every pair of names of the alphabet as the whole content of
+	// the approved build's file (so that no other name can mask a mistake), under every configuration
+	// and X.
+	if p.Thorough() {
+		ok := ref.Build{"example.com/p1", "v1.0.0", "go1.21.0", "linux", "amd64"}
+		var sets []zzvC01FileSet
+		for i, a := range zzvC01Names {
+			sets = append(sets, zzvC01FileSet{fmt.Sprintf("only %q", a), []ref.LocalFile{{ok, map[string]uint64{a: uint64(i + 1)}}}})
+			for j := i + 1; j < len(zzvC01Names); j++ {
+				b := zzvC01Names[j]
+				sets = append(sets, zzvC01FileSet{fmt.Sprintf("only %q,%q", a, b), []ref.LocalFile{{ok, map[string]uint64{a: uint64(i + 1), b: uint64(j + 1)}}}})
+			}
+		}
+		for _, cc := range cfgs {
+			for _, x := range zzvC01Xs() {
+				for _, fs := range sets {
+					idx++
+					if !p.Mine(idx) {
+						continue
+					}
+					zzvC01Run(res, base, cc, x, fs)
+				}
+			}
+			if p.Expired() {
+				res.Exhaustive = false
+				res.Note("name-pair leg stopped by the time budget")
+				break
+			}
+		}
+	}
 	// E2: histories. Run 1 under config A gets a 500; run 2 under config B sends the leftover.
 	if p.Mine(0) {
 		zzvC01History(res, base)
